@@ -15,8 +15,10 @@
 // what reaches reply(const char*) / broadcast(const char*).
 //
 //   case:   sugar <kind> <depth> <name> <N> <mintext|-> <maxtext|-> <opts|-> <init> <ops> ...
-//     kind   P F I O OE T S1 S5 S16 AI AF AO AT PA PS    depth 0|1
-//            (OE: rOption on a scoped-enum field; PA / PS: the two ports of rParams)
+//     kind   P F I O OE T S1 S5 S16 AI AF AO AT PA PS CO ATM    depth 0|1
+//            (OE: rOption on a scoped-enum field; PA / PS: the two ports of rParams;
+//             CO: rCOptionCb(obj->co, (obj->co_sets++, obj->co = var)), state "co,co_sets";
+//             ATM: rArrayTCbMember(atm, on), state "other,on" per element)
 //     opts   k=sym,k=sym,...      init  v,v,... (16 for arrays; hex buffer for S*)
 //     ops    q[<idx>] | s[<idx>]=<t><v>  separated by ';'
 //            t/v: i<dec> c<dec> f<hex8> S<hexsym> s<hexstr> T F
@@ -65,13 +67,19 @@ struct Obj {
     uint32_t guard10;
     Mode  pe;
     uint32_t guard11;
+    int   co;          // rCOptionCb(getcode, setcode): the value ...
+    int   co_sets;     // ... and how often setcode ran
+    uint32_t guard12;
+    struct Mem { int other; bool on; } atm[BACK];      // rArrayTCbMember(atm, on)
+    uint32_t guard13;
 };
 RunPorts Obj::ports;
 static const uint32_t GUARD = 0xa5c3e197u;
 static uint32_t *guards(Obj &o, int i)
 {
     uint32_t *g[] = {&o.guard0, &o.guard1, &o.guard2, &o.guard3, &o.guard4, &o.guard5,
-                     &o.guard6, &o.guard7, &o.guard8, &o.guard9, &o.guard10, &o.guard11};
+                     &o.guard6, &o.guard7, &o.guard8, &o.guard9, &o.guard10, &o.guard11,
+                     &o.guard12, &o.guard13};
     return g[i];
 }
 
@@ -91,6 +99,9 @@ static const Ports tmpl = {
     rArrayT(at, 16, "d"),
     rParams(ps, 16, "d"),
     rOption(pe, "d"),
+    {"co::i:c:S", rProp(parameter) rProp(enumerated) rDoc("d"), NULL,
+        rCOptionCb(obj->co, (obj->co_sets++, obj->co = var))},
+    {"atm#16::T:F", rProp(parameter) rDoc("d"), NULL, rArrayTCbMember(atm, on)},
 };
 #undef rObject
 
@@ -145,13 +156,13 @@ int main()
         int depth = atoi(f[2].c_str());
         const std::string &name = f[3];
         int N = atoi(f[4].c_str());
-        static const char *kinds[] = {"P", "F", "I", "O", "T", "S1", "S5", "S16", "AI", "AF", "AO", "AT", "PA", "PS", "OE"};
+        static const char *kinds[] = {"P", "F", "I", "O", "T", "S1", "S5", "S16", "AI", "AF", "AO", "AT", "PA", "PS", "OE", "CO", "ATM"};
         int k = -1;
-        for(int i = 0; i < 15; ++i) if(kind == kinds[i]) k = i;
+        for(int i = 0; i < 17; ++i) if(kind == kinds[i]) k = i;
         if(k < 0) { puts("BADCASE"); continue; }
         // PA = the array half of rParams (same callback as rArrayI), PS = its alias half
         const Port &tp = tmpl.ports[k];
-        bool is_array = (k >= 8 && k <= 12);
+        bool is_array = (k >= 8 && k <= 12) || k == 16;
         bool is_str   = (k >= 5 && k <= 7);
         int  slen     = k == 5 ? 1 : k == 6 ? 5 : 16;
 
@@ -177,7 +188,7 @@ int main()
         Top t;
         Obj &o = t.sub;
         memset(&o, 0, sizeof(o));
-        for(int i = 0; i <= 11; ++i) *guards(o, i) = GUARD;
+        for(int i = 0; i <= 13; ++i) *guards(o, i) = GUARD;
         // initial state
         auto iv = split(f[8], ',');
         auto geti = [&](int i) { return i < (int)iv.size() ? atoi(iv[i].c_str()) : 0; };
@@ -198,6 +209,8 @@ int main()
             case 11: for(int i = 0; i < BACK; ++i) o.at[i] = geti(i) != 0; break;
             case 12: case 13: for(int i = 0; i < BACK; ++i) o.ps[i] = (char)geti(i); break;
             case 14: o.pe = (Mode)geti(0); break;
+            case 15: o.co = geti(0); o.co_sets = geti(1); break;
+            case 16: for(int i = 0; i < BACK; ++i) { o.atm[i].other = geti(2 * i); o.atm[i].on = geti(2 * i + 1) != 0; } break;
         }
 
         std::ostringstream out;
@@ -255,8 +268,10 @@ int main()
             case 11: for(int i = 0; i < BACK; ++i) out << (i ? "," : "") << (int)o.at[i]; break;
             case 12: case 13: for(int i = 0; i < BACK; ++i) out << (i ? "," : "") << (int)o.ps[i]; break;
             case 14: out << (int)o.pe; break;
+            case 15: out << o.co << "," << o.co_sets; break;
+            case 16: for(int i = 0; i < BACK; ++i) out << (i ? "," : "") << o.atm[i].other << "," << (int)o.atm[i].on; break;
         }
-        for(int i = 0; i <= 11; ++i) if(*guards(o, i) != GUARD) out << " GUARD" << i;
+        for(int i = 0; i <= 13; ++i) if(*guards(o, i) != GUARD) out << " GUARD" << i;
         // every field the case's port does not own must still be zero
         {
             Obj z; memset(&z, 0, sizeof(z));
@@ -275,6 +290,8 @@ int main()
             if(k != 11 && memcmp(o.at, z.at, sizeof(o.at))) other = true;
             if(k != 12 && k != 13 && memcmp(o.ps, z.ps, sizeof(o.ps))) other = true;
             if(k != 14 && (int)o.pe) other = true;
+            if(k != 15 && (o.co || o.co_sets)) other = true;
+            if(k != 16) for(int i = 0; i < BACK; ++i) if(o.atm[i].other || o.atm[i].on) other = true;
             if(other) out << " OTHERFIELD";
         }
         puts(out.str().c_str());
